@@ -372,7 +372,7 @@ Section Inv.
     - cbn [bind iv act1 wp]. split; [|split].
       + apply post_notop; [apply Inv_time; exact HI|apply not_op_cancel].
       + apply post_pin; [exact HI|right; reflexivity].
-      + apply wp_get_mode. rewrite D. apply wp_bind. apply wp_attempt; [apply (ok_nocancel x K KO)|].
+      + apply wp_get_mode. rewrite D. apply wp_bind. apply wp_attempt.
         assert (HIa : Inv d (with_awake m true)) by (apply Inv_awake, HI).
         assert (AT : cm m = CStby \/ cm m = CTx) by (apply agree_tx; destruct HI as [_ [A _]]; rewrite D in A; exact A).
         apply (ok_procirq x K KO); [apply HIa| | |].
@@ -501,7 +501,7 @@ Section Inv.
   Proof.
     induction fuel as [|fuel IH]; intros d m HI D D0; cbn [complete_rx_loop].
     - cbn [wp]. apply post_notop; [exact HI|apply not_op_panic].
-    - apply wp_get_mode. rewrite D. apply wp_bind. apply wp_attempt; [apply (ok_nocancel x K KO)|].
+    - apply wp_get_mode. rewrite D. apply wp_bind. apply wp_attempt.
       assert (AT : cm m = CStby \/ cm m = rx_target rm) by (apply agree_rx_cases; destruct HI as [_ [A _]]; rewrite D in A; exact A).
       apply (ok_procirq x K KO); [apply HI|apply (rx_not_sleep d m rm); assumption| |].
       { intros E. destruct AT as [C|C]; [congruence|]. rewrite E in C. destruct rm; try discriminate C. reflexivity. }
@@ -661,7 +661,7 @@ Section Inv.
     specialize (S1 I). cbn [bind iv act1 wp]. split; [|split].
     - apply post_notop; [apply Inv_time; exact HI1|apply not_op_cancel].
     - apply post_pin; [exact HI1|right; reflexivity].
-    - apply wp_bind. apply wp_attempt; [apply (ok_nocancel x K KO)|].
+    - apply wp_bind. apply wp_attempt.
       assert (HIa : Inv d (with_awake m1 true)) by (apply Inv_awake, HI1).
       apply (ok_procirq x K KO); [apply HIa| | |].
       { change (cm (mon_event x m1 (TIv IvIrq))) with (cm m1). rewrite S1. discriminate. }
